@@ -15,6 +15,31 @@ CLAIMED = {
                 "not proved against the C++ standard); LP64/x86-64 data model asserted at run time; extraction (ExtrOcamlBasic, ExtrOcamlString). No axioms (Print Assumptions: closed).",
         "technique": "Coq proof over source-regenerated tables + extracted-model differential matrix",
     },
+    "C17": {
+        "category": "proof",
+        "text": "37 Coq theorems (Properties_C17.v), one per prelude algorithm, for ALL input lists and callbacks (induction, unbounded): the Gallina transcription of each "
+                "script-level function (for_each, map, filter, foldl, reduce, sum, product, any_of, all_of, contains, find, take(_while), drop(_while), zip(_with), concat, join, "
+                "reverse, retro, generate_range, min, max, even, odd, trim family, to_string of containers/pairs) returns its functional specification, leaves its inputs "
+                "unmodified and calls the callback once per element in order (early exit visible). The transcription G_Prelude.v is regenerated from the ChaiScript text in "
+                "chaiscript_prelude.hpp on every run by a statement-level translator, and tied to the running engine by a 15.8k-case (quick) / 126k-case (thorough) three-way "
+                "correspondence: real engine vs extracted mechanism model vs extracted specification.",
+        "design_ref": "DESIGN.md §6 C17",
+        "note": "Trusted: Coq kernel; translator t_Prelude.py (statement forms it accepts; parameter typing supplied by hand; new/clone/range/back_inserter/lt/gt/string::find* pinned as "
+                "text); the range monad of PreludeDefs.v as the meaning of range()/front/pop_front/push_back; extraction. Not covered: maps as containers, throwing or mutating "
+                "callbacks, aliasing of two arguments. No axioms.",
+        "technique": "Coq proof over source-regenerated Gallina + extracted-model correspondence",
+    },
+    "C03": {
+        "category": "translation_validation",
+        "text": "Conformance to a reference interpreter: the Coq evaluator (Eval.v: two-level Boxed_Value store, scopes/frames, dispatch by arity and guard, exceptions as outcomes; "
+                "specification arithmetic of NumDefs) run on the unoptimised tree is the reference; every generated program's stdout, result value/type and error outcome from the "
+                "real default engine must equal the reference's. Laws of the reference (short-circuit, if, zero-iteration loops) are proved in Properties_C03.v; nothing is claimed "
+                "about programs that were not generated.",
+        "design_ref": "DESIGN.md §6 C03",
+        "note": "The reference covers the core subset (ints/bools/strings/vectors, blocks, if, loops with break/continue, switch, functions with guards/recursion, lambdas with captures, "
+                "references vs copies, try/catch/finally); programs outside it are counted and not judged. Trusted: tree dump/reader (round-trip tied), generator, canonicaliser.",
+        "technique": "translation validation against an extracted Coq reference interpreter",
+    },
 }
 PENDING_REASON = "check not built yet in this round (work in progress; see DESIGN.md §6 for the planned Coq model and tie)"
 ALL = ["C%02d" % i for i in range(1, 21)]
